@@ -25,6 +25,8 @@ pub enum Score {
     Const(u16),
     Mod(u8),
     AtCount,
+    /// full-width 64-bit hash ordering (scores far above 2^32 for every p)
+    Hash64(u64),
 }
 
 /// Bijective mixing of a 2p-bit value: a true permutation of 0..4^p without a table.
@@ -53,6 +55,10 @@ pub fn score_of(sc: &Score, pmer: &[u8]) -> usize {
         Score::Const(c) => *c as usize,
         Score::Mod(m) => (rank(pmer) % (*m as u64).max(1)) as usize,
         Score::AtCount => pmer.iter().filter(|b| **b == 0 || **b == 3).count(),
+        Score::Hash64(seed) => {
+            let mut st = rank(pmer) ^ *seed;
+            crate::util::splitmix(&mut st) as usize
+        }
     }
 }
 
@@ -72,6 +78,7 @@ fn score_strategy() -> BoxedStrategy<Score> {
         1 => any::<u16>().prop_map(Score::Const),
         3 => (1u8..6).prop_map(Score::Mod),
         1 => Just(Score::AtCount),
+        2 => any::<u64>().prop_map(Score::Hash64),
     ]
     .boxed()
 }
